@@ -576,6 +576,11 @@ class CPreProcessor:
                     # Do macro expansion on the argument:
                     replacement = self.expand_token_sequence(replacement)
                 replacement = self.copy_tokens(replacement, token.space)
+                if used_in_concat and not replacement:
+                    # An empty argument next to '##' is a placemarker.
+                    replacement = [
+                        CToken("PLACEMARKER", "", token.space, False, token.loc)
+                    ]
                 new_line.extend(replacement)
             else:
                 new_line.append(token)
@@ -623,6 +628,12 @@ class CPreProcessor:
 
     def concat(self, lhs, rhs):
         """Concatenate two tokens"""
+        # Gluing with a placemarker gives the other operand:
+        if rhs.typ == "PLACEMARKER":
+            return lhs
+        elif lhs.typ == "PLACEMARKER":
+            return rhs.copy(space=lhs.space, first=lhs.first)
+
         total_text = lhs.val + rhs.val
 
         # Invoke the lexer again on glued text to produce tokens:
@@ -641,7 +652,8 @@ class CPreProcessor:
             while le.has_consumed("##"):
                 rhs = le.consume()
                 lhs = self.concat(lhs, rhs)
-            glue_line.append(lhs)
+            if lhs.typ != "PLACEMARKER":
+                glue_line.append(lhs)
         return glue_line
 
     def make_newline_token(self, line):
